@@ -1,5 +1,5 @@
 (* C07 -- model entry points and comparison for the correspondence run. *)
-From PyGql Require Import Run.Driver Exec.CoerceModel.
+From PyGql Require Import Run.Driver Exec.CoerceModel Proofs.CoerceCheck.
 From Coq Require Import ZArith.
 
 (* what the implementation did: a value, a documented rejection family
@@ -78,7 +78,47 @@ Definition model_val (s : schema) (t : ity) (j : json) : outcome pv := coerce_va
 Definition model_lit (s : schema) (t : ity) (l : value) (vs : vars) : outcome pv :=
   value_from_ast s vs l t.
 
-Definition agree_C07 (c : case_C07) : bool :=
+(* ---- Spec-level oracle (Proofs/CoerceCheck.v, proved sound): the generated
+   schema / argument definitions satisfy the hypotheses of the theorems, and
+   what the IMPLEMENTATION handed out conforms to the declared types ---- *)
+Definition obs_conforms (s : schema) (t : ity) (o : obs07) : bool :=
+  match o with OOk v => conformsb s t v | _ => true end.
+
+Definition kwargs_okb (s : schema) (defs : list ifield) (kw : list (str * pv)) : bool :=
+  nodupb (map fst kw)
+  && forallb (fun kv => match find_py (fst kv) defs with
+                        | Some d => conformsb s (f_ty d) (snd kv)
+                        | None => false
+                        end) kw
+  && forallb (fun d => negb (has_default d || ity_nn (f_ty d)) || mem_str (f_py d) (map fst kw)) defs.
+
+Definition obs_kwargs_ok (s : schema) (defs : list ifield) (o : obs07) : bool :=
+  match o with
+  | OOk (PDict kw) => kwargs_okb s defs kw
+  | OOk PNone => true
+  | OOk _ => false
+  | _ => true
+  end.
+
+Definition spec_check_C07 (c : case_C07) : bool :=
+  match c with
+  | CaseVal s t j o => schema_okb s && boundb s t && input_tyb s t && obs_conforms s t o
+  | CaseLit s t l vs o =>
+      schema_okb s && boundb s t && input_tyb s t
+      && match vs with [] => obs_conforms s t o | _ => true end
+  | CaseExec s defs _ _ _ _ oargs oexec =>
+      schema_okb s && args_okb s defs && obs_kwargs_ok s defs oexec
+      && match oargs with Some oa => obs_kwargs_ok s defs oa | None => true end
+  | CaseAbs s _ _ _ _ items =>
+      schema_okb s
+      && forallb (fun it => args_okb s (fst it) && obs_kwargs_ok s (fst it) (snd it)) items
+  | CaseDir s cdefs _ _ _ _ _ ocustom osdl =>
+      schema_okb s && args_okb s cdefs
+      && match ocustom with Some o => obs_kwargs_ok s cdefs o | None => true end
+      && match osdl with Some o => obs_kwargs_ok s cdefs o | None => true end
+  end.
+
+Definition agree_model_C07 (c : case_C07) : bool :=
   match c with
   | CaseVal s t j o => same (fun v => v) (model_val s t j) o
   | CaseLit s t l vs o => same (fun v => v) (model_lit s t l vs) o
@@ -119,7 +159,7 @@ Definition agree_C07 (c : case_C07) : bool :=
                     match ocustom with
                     | Some oc =>
                         same (fun o => match o with Some kw => PDict kw | None => PNone end)
-                             (directive_arguments s cdefs (str_of_string "custom"%string) dirs vs) oc
+                             (exec_directive_args s cdefs vds (str_of_string "custom"%string) dirs raw) oc
                     | None => false
                     end
                 | _ => match ocustom with None => true | Some _ => false end
@@ -127,6 +167,8 @@ Definition agree_C07 (c : case_C07) : bool :=
          | _ => match oskip, ocustom with None, None => true | _, _ => false end
          end
   end.
+
+Definition agree_C07 (c : case_C07) : bool := agree_model_C07 c && spec_check_C07 c.
 
 (* diagnostics *)
 Definition model_C07 (c : case_C07) :=
